@@ -596,6 +596,7 @@ package bluemonday
 //@   requires wfp(p)
 //@   modifies p
 //@   ensures result == p && wfp(p) && p.srcRewriter == fn && p.initialized == old(p.initialized)
+//@   ensures p.allowComments == old(p.allowComments) && p.allowUnsafe == old(p.allowUnsafe) && p.addSpaces == old(p.addSpaces) && p.allowDataAttributes == old(p.allowDataAttributes) && p.requireNoFollow == old(p.requireNoFollow) && p.requireNoFollowFullyQualifiedLinks == old(p.requireNoFollowFullyQualifiedLinks) && p.requireNoReferrer == old(p.requireNoReferrer) && p.requireNoReferrerFullyQualifiedLinks == old(p.requireNoReferrerFullyQualifiedLinks) && p.addTargetBlankToFullyQualifiedLinks == old(p.addTargetBlankToFullyQualifiedLinks) && p.requireParseableURLs == old(p.requireParseableURLs) && p.allowRelativeURLs == old(p.allowRelativeURLs) && p.requireCrossOriginAnonymous == old(p.requireCrossOriginAnonymous)
 
 //@ func (*bluemonday.Policy).RequireNoFollowOnLinks
 //@   reveal wfRegex, wfInner, wfURLPols
@@ -603,6 +604,7 @@ package bluemonday
 //@   modifies p
 //@   ensures result == p && wfp(p) && p.initialized == old(p.initialized)
 //@   ensures p.requireNoFollow == require && p.requireParseableURLs
+//@   ensures p.allowComments == old(p.allowComments) && p.allowUnsafe == old(p.allowUnsafe) && p.addSpaces == old(p.addSpaces) && p.allowDataAttributes == old(p.allowDataAttributes) && p.requireNoFollowFullyQualifiedLinks == old(p.requireNoFollowFullyQualifiedLinks) && p.requireNoReferrer == old(p.requireNoReferrer) && p.requireNoReferrerFullyQualifiedLinks == old(p.requireNoReferrerFullyQualifiedLinks) && p.addTargetBlankToFullyQualifiedLinks == old(p.addTargetBlankToFullyQualifiedLinks) && p.allowRelativeURLs == old(p.allowRelativeURLs) && p.requireCrossOriginAnonymous == old(p.requireCrossOriginAnonymous)
 
 //@ func (*bluemonday.Policy).RequireNoFollowOnFullyQualifiedLinks
 //@   reveal wfRegex, wfInner, wfURLPols
@@ -610,6 +612,7 @@ package bluemonday
 //@   modifies p
 //@   ensures result == p && wfp(p) && p.initialized == old(p.initialized)
 //@   ensures p.requireNoFollowFullyQualifiedLinks == require && p.requireParseableURLs
+//@   ensures p.allowComments == old(p.allowComments) && p.allowUnsafe == old(p.allowUnsafe) && p.addSpaces == old(p.addSpaces) && p.allowDataAttributes == old(p.allowDataAttributes) && p.requireNoFollow == old(p.requireNoFollow) && p.requireNoReferrer == old(p.requireNoReferrer) && p.requireNoReferrerFullyQualifiedLinks == old(p.requireNoReferrerFullyQualifiedLinks) && p.addTargetBlankToFullyQualifiedLinks == old(p.addTargetBlankToFullyQualifiedLinks) && p.allowRelativeURLs == old(p.allowRelativeURLs) && p.requireCrossOriginAnonymous == old(p.requireCrossOriginAnonymous)
 
 //@ func (*bluemonday.Policy).RequireNoReferrerOnLinks
 //@   reveal wfRegex, wfInner, wfURLPols
@@ -617,6 +620,7 @@ package bluemonday
 //@   modifies p
 //@   ensures result == p && wfp(p) && p.initialized == old(p.initialized)
 //@   ensures p.requireNoReferrer == require && p.requireParseableURLs
+//@   ensures p.allowComments == old(p.allowComments) && p.allowUnsafe == old(p.allowUnsafe) && p.addSpaces == old(p.addSpaces) && p.allowDataAttributes == old(p.allowDataAttributes) && p.requireNoFollow == old(p.requireNoFollow) && p.requireNoFollowFullyQualifiedLinks == old(p.requireNoFollowFullyQualifiedLinks) && p.requireNoReferrerFullyQualifiedLinks == old(p.requireNoReferrerFullyQualifiedLinks) && p.addTargetBlankToFullyQualifiedLinks == old(p.addTargetBlankToFullyQualifiedLinks) && p.allowRelativeURLs == old(p.allowRelativeURLs) && p.requireCrossOriginAnonymous == old(p.requireCrossOriginAnonymous)
 
 //@ func (*bluemonday.Policy).RequireNoReferrerOnFullyQualifiedLinks
 //@   reveal wfRegex, wfInner, wfURLPols
@@ -624,6 +628,7 @@ package bluemonday
 //@   modifies p
 //@   ensures result == p && wfp(p) && p.initialized == old(p.initialized)
 //@   ensures p.requireNoReferrerFullyQualifiedLinks == require && p.requireParseableURLs
+//@   ensures p.allowComments == old(p.allowComments) && p.allowUnsafe == old(p.allowUnsafe) && p.addSpaces == old(p.addSpaces) && p.allowDataAttributes == old(p.allowDataAttributes) && p.requireNoFollow == old(p.requireNoFollow) && p.requireNoFollowFullyQualifiedLinks == old(p.requireNoFollowFullyQualifiedLinks) && p.requireNoReferrer == old(p.requireNoReferrer) && p.addTargetBlankToFullyQualifiedLinks == old(p.addTargetBlankToFullyQualifiedLinks) && p.allowRelativeURLs == old(p.allowRelativeURLs) && p.requireCrossOriginAnonymous == old(p.requireCrossOriginAnonymous)
 
 //@ func (*bluemonday.Policy).RequireCrossOriginAnonymous
 //@   reveal wfRegex, wfInner, wfURLPols
@@ -631,6 +636,7 @@ package bluemonday
 //@   modifies p
 //@   ensures result == p && wfp(p) && p.initialized == old(p.initialized)
 //@   ensures[C12,C17] p.requireCrossOriginAnonymous == require
+//@   ensures p.allowComments == old(p.allowComments) && p.allowUnsafe == old(p.allowUnsafe) && p.addSpaces == old(p.addSpaces) && p.allowDataAttributes == old(p.allowDataAttributes) && p.requireNoFollow == old(p.requireNoFollow) && p.requireNoFollowFullyQualifiedLinks == old(p.requireNoFollowFullyQualifiedLinks) && p.requireNoReferrer == old(p.requireNoReferrer) && p.requireNoReferrerFullyQualifiedLinks == old(p.requireNoReferrerFullyQualifiedLinks) && p.addTargetBlankToFullyQualifiedLinks == old(p.addTargetBlankToFullyQualifiedLinks) && p.requireParseableURLs == old(p.requireParseableURLs) && p.allowRelativeURLs == old(p.allowRelativeURLs)
 
 //@ func (*bluemonday.Policy).AddTargetBlankToFullyQualifiedLinks
 //@   reveal wfRegex, wfInner, wfURLPols
@@ -638,6 +644,7 @@ package bluemonday
 //@   modifies p
 //@   ensures result == p && wfp(p) && p.initialized == old(p.initialized)
 //@   ensures p.addTargetBlankToFullyQualifiedLinks == require && p.requireParseableURLs
+//@   ensures p.allowComments == old(p.allowComments) && p.allowUnsafe == old(p.allowUnsafe) && p.addSpaces == old(p.addSpaces) && p.allowDataAttributes == old(p.allowDataAttributes) && p.requireNoFollow == old(p.requireNoFollow) && p.requireNoFollowFullyQualifiedLinks == old(p.requireNoFollowFullyQualifiedLinks) && p.requireNoReferrer == old(p.requireNoReferrer) && p.requireNoReferrerFullyQualifiedLinks == old(p.requireNoReferrerFullyQualifiedLinks) && p.allowRelativeURLs == old(p.allowRelativeURLs) && p.requireCrossOriginAnonymous == old(p.requireCrossOriginAnonymous)
 
 //@ func (*bluemonday.Policy).RequireParseableURLs
 //@   reveal wfRegex, wfInner, wfURLPols
@@ -645,6 +652,7 @@ package bluemonday
 //@   modifies p
 //@   ensures result == p && wfp(p) && p.initialized == old(p.initialized)
 //@   ensures p.requireParseableURLs == require
+//@   ensures p.allowComments == old(p.allowComments) && p.allowUnsafe == old(p.allowUnsafe) && p.addSpaces == old(p.addSpaces) && p.allowDataAttributes == old(p.allowDataAttributes) && p.requireNoFollow == old(p.requireNoFollow) && p.requireNoFollowFullyQualifiedLinks == old(p.requireNoFollowFullyQualifiedLinks) && p.requireNoReferrer == old(p.requireNoReferrer) && p.requireNoReferrerFullyQualifiedLinks == old(p.requireNoReferrerFullyQualifiedLinks) && p.addTargetBlankToFullyQualifiedLinks == old(p.addTargetBlankToFullyQualifiedLinks) && p.allowRelativeURLs == old(p.allowRelativeURLs) && p.requireCrossOriginAnonymous == old(p.requireCrossOriginAnonymous)
 
 //@ func (*bluemonday.Policy).AllowRelativeURLs
 //@   reveal wfRegex, wfInner, wfURLPols
@@ -652,6 +660,7 @@ package bluemonday
 //@   modifies p
 //@   ensures result == p && wfp(p) && p.initialized == old(p.initialized)
 //@   ensures p.allowRelativeURLs == require && p.requireParseableURLs
+//@   ensures p.allowComments == old(p.allowComments) && p.allowUnsafe == old(p.allowUnsafe) && p.addSpaces == old(p.addSpaces) && p.allowDataAttributes == old(p.allowDataAttributes) && p.requireNoFollow == old(p.requireNoFollow) && p.requireNoFollowFullyQualifiedLinks == old(p.requireNoFollowFullyQualifiedLinks) && p.requireNoReferrer == old(p.requireNoReferrer) && p.requireNoReferrerFullyQualifiedLinks == old(p.requireNoReferrerFullyQualifiedLinks) && p.addTargetBlankToFullyQualifiedLinks == old(p.addTargetBlankToFullyQualifiedLinks) && p.requireCrossOriginAnonymous == old(p.requireCrossOriginAnonymous)
 
 //@ func (*bluemonday.Policy).AllowURLSchemes
 //@   reveal wfRegex, wfInner, wfURLPols
@@ -683,25 +692,29 @@ package bluemonday
 //@   modifies p
 //@   ensures result == p && wfp(p) && p.initialized == old(p.initialized)
 //@   ensures[C17] p.addSpaces == allow
+//@   ensures p.allowComments == old(p.allowComments) && p.allowUnsafe == old(p.allowUnsafe) && p.allowDataAttributes == old(p.allowDataAttributes) && p.requireNoFollow == old(p.requireNoFollow) && p.requireNoFollowFullyQualifiedLinks == old(p.requireNoFollowFullyQualifiedLinks) && p.requireNoReferrer == old(p.requireNoReferrer) && p.requireNoReferrerFullyQualifiedLinks == old(p.requireNoReferrerFullyQualifiedLinks) && p.addTargetBlankToFullyQualifiedLinks == old(p.addTargetBlankToFullyQualifiedLinks) && p.requireParseableURLs == old(p.requireParseableURLs) && p.allowRelativeURLs == old(p.allowRelativeURLs) && p.requireCrossOriginAnonymous == old(p.requireCrossOriginAnonymous)
 
 //@ func (*bluemonday.Policy).AllowDataAttributes
 //@   reveal wfRegex, wfInner, wfURLPols
 //@   requires wfp(p)
 //@   modifies p
 //@   ensures wfp(p) && p.initialized == old(p.initialized) && p.allowDataAttributes
+//@   ensures p.allowComments == old(p.allowComments) && p.allowUnsafe == old(p.allowUnsafe) && p.addSpaces == old(p.addSpaces) && p.requireNoFollow == old(p.requireNoFollow) && p.requireNoFollowFullyQualifiedLinks == old(p.requireNoFollowFullyQualifiedLinks) && p.requireNoReferrer == old(p.requireNoReferrer) && p.requireNoReferrerFullyQualifiedLinks == old(p.requireNoReferrerFullyQualifiedLinks) && p.addTargetBlankToFullyQualifiedLinks == old(p.addTargetBlankToFullyQualifiedLinks) && p.requireParseableURLs == old(p.requireParseableURLs) && p.allowRelativeURLs == old(p.allowRelativeURLs) && p.requireCrossOriginAnonymous == old(p.requireCrossOriginAnonymous)
 
 //@ func (*bluemonday.Policy).AllowComments
 //@   reveal wfRegex, wfInner, wfURLPols
 //@   requires wfp(p)
 //@   modifies p
 //@   ensures wfp(p) && p.initialized == old(p.initialized) && p.allowComments
+//@   ensures p.allowUnsafe == old(p.allowUnsafe) && p.addSpaces == old(p.addSpaces) && p.allowDataAttributes == old(p.allowDataAttributes) && p.requireNoFollow == old(p.requireNoFollow) && p.requireNoFollowFullyQualifiedLinks == old(p.requireNoFollowFullyQualifiedLinks) && p.requireNoReferrer == old(p.requireNoReferrer) && p.requireNoReferrerFullyQualifiedLinks == old(p.requireNoReferrerFullyQualifiedLinks) && p.addTargetBlankToFullyQualifiedLinks == old(p.addTargetBlankToFullyQualifiedLinks) && p.requireParseableURLs == old(p.requireParseableURLs) && p.allowRelativeURLs == old(p.allowRelativeURLs) && p.requireCrossOriginAnonymous == old(p.requireCrossOriginAnonymous)
 
 //@ func (*bluemonday.Policy).AllowUnsafe
 //@   reveal wfRegex, wfInner, wfURLPols
 //@   requires wfp(p)
 //@   modifies p
 //@   ensures result == p && wfp(p) && p.initialized
-//@   ensures[C17] p.allowUnsafe == allowUnsafe
+//@   ensures[C05,C17] p.allowUnsafe == allowUnsafe
+//@   ensures p.allowComments == old(p.allowComments) && p.addSpaces == old(p.addSpaces) && p.allowDataAttributes == old(p.allowDataAttributes) && p.requireNoFollow == old(p.requireNoFollow) && p.requireNoFollowFullyQualifiedLinks == old(p.requireNoFollowFullyQualifiedLinks) && p.requireNoReferrer == old(p.requireNoReferrer) && p.requireNoReferrerFullyQualifiedLinks == old(p.requireNoReferrerFullyQualifiedLinks) && p.addTargetBlankToFullyQualifiedLinks == old(p.addTargetBlankToFullyQualifiedLinks) && p.requireParseableURLs == old(p.requireParseableURLs) && p.allowRelativeURLs == old(p.allowRelativeURLs) && p.requireCrossOriginAnonymous == old(p.requireCrossOriginAnonymous)
 
 //@ func (*bluemonday.Policy).SkipElementsContent
 //@   reveal wfRegex, wfInner, wfURLPols
@@ -735,8 +748,11 @@ package bluemonday
 //@   modifies p
 //@   ensures wfp(p) && p.initialized == old(p.initialized)
 //@   ensures[C12,C17] p.requireSandboxOnIFrame != nil && fresh(p.requireSandboxOnIFrame)
+//@   ensures[C12,C17] forall s string :: (s in p.requireSandboxOnIFrame && p.requireSandboxOnIFrame[s]) <==> (exists i int :: 0 <= i && i < len(vals) && 0 <= vals[i] && vals[i] <= 13 && s == sbTok(vals[i]))
 //@   loop 0 "for _, val := range vals"
 //@     invariant wfp(p) && p.initialized == old(p.initialized) && p.requireSandboxOnIFrame != nil && fresh(p.requireSandboxOnIFrame)
+//@     invariant[C12,C17] rangeindex < len(vals) && (forall s string :: (s in p.requireSandboxOnIFrame && p.requireSandboxOnIFrame[s]) <==> (exists i int :: 0 <= i && i <= rangeindex && 0 <= vals[i] && vals[i] <= 13 && s == sbTok(vals[i])))
+//@   ensures p.allowComments == old(p.allowComments) && p.allowUnsafe == old(p.allowUnsafe) && p.addSpaces == old(p.addSpaces) && p.allowDataAttributes == old(p.allowDataAttributes) && p.requireNoFollow == old(p.requireNoFollow) && p.requireNoFollowFullyQualifiedLinks == old(p.requireNoFollowFullyQualifiedLinks) && p.requireNoReferrer == old(p.requireNoReferrer) && p.requireNoReferrerFullyQualifiedLinks == old(p.requireNoReferrerFullyQualifiedLinks) && p.addTargetBlankToFullyQualifiedLinks == old(p.addTargetBlankToFullyQualifiedLinks) && p.requireParseableURLs == old(p.requireParseableURLs) && p.allowRelativeURLs == old(p.allowRelativeURLs) && p.requireCrossOriginAnonymous == old(p.requireCrossOriginAnonymous)
 
 //@ func (*bluemonday.Policy).AllowStandardURLs
 //@   reveal wfRegex, wfInner, wfURLPols
